@@ -52,3 +52,44 @@ package types
 //@   loop 0 invariant [chosen] forall j int :: 0 <= j && j < numOfNodes ==> sessionNodes[j] != nil && len(sessionNodes[j]) == 20 && stakedFor(sessionCtx, chain, bytes(sessionNodes[j])) && eligible(ctx, chain, bytes(sessionNodes[j]), isEnforceMaxChains, nodeMaxChains)
 //@   loop 0 invariant [distinct] forall j int, k int :: 0 <= j && j < k && k < numOfNodes ==> bytes(sessionNodes[j]) != bytes(sessionNodes[k])
 //@   loop 0 invariant [unfilled] forall j int :: numOfNodes <= j && j < len(sessionNodes) ==> sessionNodes[j] == nil
+
+// ---- C30 / C29: merkle-sum-index proofs ----------------------------------------------------
+//@ func merkleHash
+//@   trusted blake2b-256 (external library): a function of the input bytes, 32 fresh bytes
+//@   pure_fn
+//@   ensures result != nil && len(result) == 32 && bytes(result) == mh(bytes(data))
+
+//@ pure ph(after bool, h1 Bytes, h2 Bytes, lo int, up int, i1 int, i2 int) Bytes
+//@ func parentHash
+//@   trusted hash of the concatenated children (MultiAppend + blake2b): a function of exactly these inputs; after the codec upgrade the child indices are part of the pre-image
+//@   pure_fn
+//@   ensures result != nil && len(result) == 32
+
+// Validate: what a successful verification implies about the inputs.
+//@ func (MerkleProof).Validate
+//@   props C30
+//@   modifies all
+//@   ensures [valid-not-replay] isValid ==> !isReplayAttack
+//@   ensures [root-lower-zero] isValid ==> root.Range.Lower == 0
+//@   ensures [leaf-hash-bound] isValid ==> bytes(mp.Target.Hash) == mh(leafBytes(leaf))
+//@   ensures [leaf-sum-bound] isValid ==> mp.Target.Range.Upper == le64(bytes(mp.Target.Hash[:8]))
+//@   ensures [levels-available] isValid ==> numOfLevels <= len(mp.HashRanges)
+//@   ensures [no-zero-width-sibling] isValid ==> forall q int :: 0 <= q && q < numOfLevels ==> mp.HashRanges[q].Range.Lower < mp.HashRanges[q].Range.Upper
+//@   ensures [no-zero-width-leaf] isValid && numOfLevels >= 1 ==> mp.Target.Range.Lower < mp.Target.Range.Upper
+//@   ensures [root-contains-leaf] isValid ==> root.Range.Lower <= mp.Target.Range.Lower && mp.Target.Range.Upper <= root.Range.Upper
+//@   ensures [no-levels-root-is-leaf] isValid && numOfLevels <= 0 ==> bytes(root.Hash) == bytes(mp.Target.Hash) && root.Range.Upper == mp.Target.Range.Upper
+//@   loop 0 invariant [idx] 0 <= i && i <= len(old(mp.HashRanges)) && (i == 0 || i <= numOfLevels)
+//@   loop 0 invariant [siblings] forall q int :: 0 <= q && q < i ==> old(mp.HashRanges)[q].Range.Lower < old(mp.HashRanges)[q].Range.Upper
+//@   loop 0 invariant [widen] mp.Target.Range.Lower <= old(mp.Target.Range.Lower) && old(mp.Target.Range.Upper) <= mp.Target.Range.Upper && mp.HashRanges == old(mp.HashRanges)
+//@   loop 0 invariant [leaf-valid] i >= 1 ==> old(mp.Target.Range.Lower) < old(mp.Target.Range.Upper)
+//@   loop 0 invariant [unchanged-at-zero] i == 0 ==> mp.Target == old(mp.Target)
+
+// levelUp: pairs children in place; needs an even number (>= 2) of nodes
+//@ func levelUp
+//@   props C29
+//@   reveal go_div
+//@   requires len(data) >= 2 && len(data) % 2 == 0
+//@   panics_never
+//@   modifies elems(data)
+//@   ensures len(nextLevelData) == len(data) / 2 && atRoot == (len(data) == 2) && ref(nextLevelData) == ref(data) && off(nextLevelData) == off(data)
+//@   loop 0 invariant 0 - 1 <= rangeindex && rangeindex < len(data) && frame_elems(data)
